@@ -121,7 +121,7 @@ def _run_ob(ob, name, tier, seed, t0):
             tfs[modn] = loopcut.make_transform(loops)
         loader = LD.Loader(transforms=tfs)
         res = E.run_symbolic(ob.fn, loader, max_paths=ob.opts.get('max_paths', 64), seed=seed,
-                             z3_timeout=ob.opts.get('z3_timeout', 2000), eps_value=eps_value)
+                             z3_timeout=ob.opts.get('z3_timeout', 2000), eps_value=eps_value, first_only=bool(ob.opts.get('first_path_only')))
     except (E.PathLimit, AT.EngineGap) as e:
         out.update(status='undecided', why=str(e), wall=time.time() - t0); return out
     except Exception as e:
@@ -186,6 +186,12 @@ def _run_ob(ob, name, tier, seed, t0):
     failed = [c for c, v in verdicts.items() if v == 'failed']
     if failed and not ob.opts.get('canary'):
         cex = find_counterexamples(ob, res, failed, seed, n=ob.opts.get('cex_samples', 300))
+    # a clause failed by an over-approximating argument (needs_cex) is a violation only with a failing input of the real code
+    for cname in failed:
+        over = [d for _, d in details.get(cname, []) if isinstance(d, dict) and d.get('needs_cex')]
+        if over and len(over) == len(details.get(cname, [])) and cname not in (cex.get('found') or {}):
+            verdicts[cname] = 'unknown'
+    out['verdicts'] = verdicts
     out['cex'] = cex
     # engine gap: the model cannot express the (changed) code.  Fall back to the concrete twin of the same contract on the
     # real code (bounded, labelled); a failing input found there is a genuine violation of the contract with a replay.
